@@ -537,8 +537,9 @@ func periodicCancelInsideRun(c *harness.Ctx, s *advanced.Service) {
 			}
 			time.Sleep(2 * period)
 			detail := map[string]any{"run_now_reported_success": js.runNil.Load() > 0, "run_now_errors": js.runErr, "cancel_reported_success": js.cancelNil.Load() > 0, "invocations_when_cancel_returned": cancelDone.Load(), "invocations_in_the_end": invocations.Load()}
-			if js.cancelNil.Load() > 0 && invocations.Load() > cancelDone.Load() {
-				c.Violate("ran-after-cancel:periodic-cancel-inside-run", "a periodic job ran again after CancelJob had returned success", id, detail)
+			// (an instance that had already begun when the cancel completed may still finish: one more invocation is allowed)
+			if js.cancelNil.Load() > 0 && invocations.Load() > cancelDone.Load()+1 {
+				c.Violate("ran-after-cancel:periodic-cancel-inside-run", "a periodic job ran again (more than the one instance that may have been under way) after CancelJob had returned success", id, detail)
 			} else if js.cancelNil.Load() > 0 && js.runNil.Load() > 0 {
 				c.Violate("dropped:periodic-cancel-inside-run", "a run-now request reported success for a periodic job that had been cancelled before the request claimed it; the run never happened", id, detail)
 			}
